@@ -76,6 +76,7 @@ MUTANTS += [
     ('revert-c18-undecodable-file', ['C18'], 'main.py', "open(file_path, errors='replace')", "open(file_path)"),
     ('revert-c18-undecodable-run', ['C18'], RU, "os.fdopen(readable, 'r', errors='replace')", "os.fdopen(readable, 'r')"),
     ('revert-c19-empty-f', ['C19'], AR, "    if args.f is not None:", "    if args.f:"),
+    ('revert-c18-wildcard-regex', ['C18'], MA, "    def matches(self, text: str) -> bool:\n        # Leftmost placement", "    def matches(self, text: str) -> bool:\n        import re as _re\n        return len(_re.compile(r'^' + _re.escape(self.pattern).replace(r'\\*', '.*') + r'$').findall(text)) > 0\n\n    def matches_linear(self, text: str) -> bool:\n        # Leftmost placement"),
     ('revert-c19-rg-cluster', ['C19'], AR, "        if _starts_with_single_dash(args[i]) and len(args[i]) > 2:\n            # whichever", "        if False:\n            # whichever"),
     ('revert-c19-repr-quoting', ['C19'], GR, "', '.join(repr(i) for i in args.wayland_debug_args)", "', '.join('\"' + i.replace('\"', '\\\\\"') + '\"' for i in args.wayland_debug_args)"),
     # ---- C05
